@@ -10,7 +10,7 @@
 (*                          Big (every path of depth <= 3 x every kind)      *)
 (*         Mode = "names"   a prefix from NamePrefixes, then ONE operation    *)
 (*                          whose path uses keys that are also the names of   *)
-(*                          prototype methods (length, pluck, push, floor)    *)
+(*                          prototype methods (length, pluck, push)           *)
 (*         Mode = "given"   the histories in given.json (seeded random ones   *)
 (*                          over Big, written by the harness); operations the *)
 (*                          statement leaves open in their state are skipped  *)
@@ -92,8 +92,8 @@ Big == {Set(p, r) : p \in BigPaths, r \in Rhss} \cup {Upd(k, p) : k \in UpdKinds
        \cup {Call(f, p) : f \in {"fk", "fi", "fg", "fr"}, p \in BigPaths} \cup {Loop(f, p) : f \in {"lr", "lk", "li"}, p \in BigPaths}
        \cup BigNew
 
-\* keys that are also names of prototype methods (of objects: length, pluck; of arrays, numbers: push, floor)
-SelNames == {K("length"), K("pluck"), K("push"), K("floor"), K("k"), I(0)}
+\* keys that are also names of prototype methods (of objects: length, pluck; of arrays: length, push)
+SelNames == {K("length"), K("pluck"), K("push"), K("k"), I(0)}
 NamePaths == {P(b, ss) : b \in ObsNames, ss \in SeqsUpTo(SelNames, 2)}
 BigNames == {Set(p, r) : p \in NamePaths, r \in {RNum(7), RObj, RPath(Y(<<>>))}} \cup {Upd(k, p) : k \in UpdKinds, p \in NamePaths}
             \cup {Rd(p) : p \in NamePaths} \cup {Call(f, p) : f \in {"fk", "fr"}, p \in NamePaths}
@@ -101,7 +101,7 @@ BigNames == {Set(p, r) : p \in NamePaths, r \in {RNum(7), RObj, RPath(Y(<<>>))}}
 NamePrefixes ==
   { <<>>, <<Set(X(<<>>), RObj)>>, <<Set(X(<<>>), RNum(7))>>, <<Set(X(<<>>), RStr("s"))>>, <<Set(X(<<>>), RArr)>>,
     <<Set(X(<<>>), RObj), Set(Y(<<>>), RPath(X(<<>>)))>>,
-    <<Set(X(<<K("length")>>), RNum(7))>>, <<Set(X(<<K("pluck"), K("length")>>), RObj), Set(Y(<<>>), RPath(X(<<K("pluck")>>)))>>,
+    <<Set(X(<<K("length")>>), RNum(7))>>, <<Set(X(<<K("pluck")>>), RObj), Set(X(<<K("pluck"), K("length")>>), RNum(7)), Set(Y(<<>>), RPath(X(<<K("pluck")>>)))>>,
     <<Set(X(<<>>), RPath(D(<<>>)))>> }
 
 Prefixes ==
@@ -163,7 +163,8 @@ MkLit(sem, st, r) ==
     [] r.r = "pluck" ->      \* only called when r.p holds an object
          LET v == IF sem = "I" THEN ReadPath(st, r.p) ELSE GReadPath(st, r.p, FALSE).res
              m == st.heap[v.id].m
-             s1 == Alloc(st, ObjC([k \in {"k", "n"} |-> IF k \in DOMAIN m THEN GCopy(m[k]) ELSE Null]))
+             at(k) == IF k \in DOMAIN m THEN GCopy(m[k]) ELSE Null
+             s1 == Alloc(st, ObjC(("k" :> at("k")) @@ ("n" :> at("n"))))   \* (an explicit function: TLC cannot write a lazy one to its disk queue)
          IN [st |-> s1, val |-> Obj(Len(s1.heap))]
     [] r.r = "arrlit" ->
          IF sem = "I" THEN LET s1 == Alloc(st, ArrC(<<Num(8), Num(9)>>)) IN [st |-> s1, val |-> Arr(Len(s1.heap))]
@@ -242,6 +243,7 @@ Step(sem, st, op) ==
             IN
             IF lt.status = "error" THEN R3(st, Missing, "error")
             ELSE IF rd.status # "ok" THEN rd
+            ELSE IF PureMethodRead(sem, st1, op.r.p) THEN R3(st, Missing, "open")
             ELSE IF sem # "I" /\ rd.st.taint > st1.taint THEN R3(st, Missing, "wild")   \* both sides evaluated before the store
             ELSE IF rd.res.t = "fresh" THEN R3(st, Missing, "wild")     \* the right side is the cell the left side just padded
             ELSE IF sem # "I" /\ GMakesCycle(rd.st, target, rd.res, Fuel) THEN R3(st, Missing, "wild")
@@ -311,10 +313,12 @@ Deepest(st, p, n) ==
 
 \* inserting a container below itself would create a cycle (rendering cycles is C17's / C04's)
 MakesCycle(st, op) ==
-  /\ op.kind = "set" /\ op.r.r = "path" /\ op.p.sels # <<>>
+  /\ op.kind = "set" /\ op.r.r \in {"path", "pluck"} /\ op.p.sels # <<>>
   /\ LET v == ReadPath(st, op.r.p)
          d == Deepest(st, op.p, Len(op.p.sels) - 1)
-     IN IsCont(v) /\ d.n >= 0 /\ d.v.id \in ReachFrom(st, v, Fuel)
+         vals == IF op.r.r = "path" THEN {v}
+                 ELSE IF v.t = "obj" THEN {st.heap[v.id].m[k] : k \in DOMAIN st.heap[v.id].m \cap {"k", "n"}} ELSE {}
+     IN d.n >= 0 /\ \E w \in vals : IsCont(w) /\ d.v.id \in ReachFrom(st, w, Fuel)
 
 \* frame condition of a successful store at p: of the containers that existed
 \* before, only the deepest existing one on the path changes, and only at the
@@ -379,12 +383,32 @@ StepLaws(st, op, r) ==
       okset == op.kind = "set" /\ ok
       lit == MkLit("I", st, op.r)            \* only used for literal right-hand sides
       isLit == op.r.r \in {"num", "str", "arrlit", "objlit"}
+      isPluck == op.r.r = "pluck"
+      rid == ReadPath(st, op.p).id           \* only used for methods
+      onlyVar == op.f \in {"lr", "lp", "lm", "la", "fr", "fp", "fa"}    \* the body changes the variable itself only
       incs == {"preinc", "postinc", "predec", "postdec"}
   IN LAll({
   \* a store changes only the deepest existing container on its path, only at the next selector
   L("frame", okset, FrameLaw(IF isLit THEN lit.st ELSE st, st2, op.p)),
   \* reading the target back yields what was stored (the same reference for a container)
-  L("readback", okset, ReadPath(st2, op.p) = (IF isLit THEN lit.val ELSE ReadPath(st, op.r.p))),
+  L("readback", okset /\ ~isPluck, ReadPath(st2, op.p) = (IF isLit THEN lit.val ELSE ReadPath(st, op.r.p))),
+  \* p.pluck("k", "n") is a NEW object that holds exactly these two members, with the values p has (null where it has none)
+  L("pluck", okset /\ isPluck,
+       LET o == ReadPath(st2, op.p)
+           src == st.heap[ReadPath(st, op.r.p).id].m
+       IN /\ o.t = "obj" /\ o.id > Len(st.heap)
+          /\ st2.heap[o.id].m = [k \in {"k", "n"} |-> IF k \in DOMAIN src THEN src[k] ELSE Null]),
+  \* a length-changing method changes the array it is invoked on, there only at the end / the start, and nothing else
+  L("meth", ok /\ op.kind \in MethKinds,
+       LET old == st.heap[rid].items
+           new == st2.heap[rid].items
+       IN /\ st2.env = st.env /\ \A id \in 1..Len(st.heap) : id # rid => st2.heap[id] = st.heap[id]
+          /\ CASE op.kind = "push" -> new = Append(old, Num(6)) /\ r.res = Arr(rid)
+               [] op.kind = "pop" -> IF old = <<>> THEN new = old /\ r.res = Null ELSE new \o <<r.res>> = old
+               [] OTHER -> IF old = <<>> THEN new = old /\ r.res = Null ELSE <<r.res>> \o new = old),
+  \* a loop variable / a parameter holds a COPY of a scalar: a body that changes only the variable changes nothing else
+  L("loopcopy", ok /\ op.kind \in {"loop", "loop2"} /\ onlyVar, st2 = st),
+  L("callcopy", ok /\ op.kind = "call" /\ onlyVar, st2 = st),
   \* two names for one container still show the same tree after any operation that does not rebind them
   L("alias", ok /\ \E a, b \in ObsNames : a # b /\ IsCont(st.env[a]) /\ st.env[a] = st.env[b],
        \A a, b \in ObsNames :
@@ -414,6 +438,7 @@ vars == <<hist, cur, gst, out, fin, law, idx>>
 
 Alphabet(pos) ==
   CASE Mode = "depth" -> Small
+    [] Mode = "names" -> BigNames
     [] OTHER -> Big
 
 \* expectation of one step under one semantics
@@ -444,6 +469,10 @@ Apply2(h, c, g, o, op, rI) ==
       cur |-> [s \in Sems |-> CASE s = "I" -> rI.st [] s = "G0" -> r0.st [] OTHER -> r1.st],
       gst |-> [s \in Sems |-> CASE s = "I" -> rI.status [] s = "G0" -> r0.status [] OTHER -> r1.status],
       out |-> Append(o, [exp |-> eI, skip |-> skip, kind |-> op.kind,
+                         mni |-> LET t == op.kind \in {"set"} \cup UpdKinds IN
+                                 [I |-> t /\ MethodIntermediate("I", c["I"], op.p),
+                                  g0 |-> t /\ g["G0"] = "ok" /\ MethodIntermediate("G0", c["G0"], op.p),
+                                  g1 |-> t /\ g["G1"] = "ok" /\ MethodIntermediate("G1", c["G1"], op.p)],
                          pre |-> [I |-> PreMissingIndex(c["I"], op),
                                   g0 |-> g["G0"] = "ok" /\ PreMissingIndexG(c["G0"], op),
                                   g1 |-> g["G1"] = "ok" /\ PreMissingIndexG(c["G1"], op)],
@@ -476,7 +505,7 @@ Init == IF Mode = "given"
         THEN /\ idx \in 1..Len(Given)
              /\ hist = Start.hist /\ cur = Start.cur /\ gst = Start.gst /\ out = Start.out /\ fin = FALSE /\ law = NoLaw
         ELSE /\ idx = 0
-             /\ \E pre \in (IF Mode = "breadth" THEN Prefixes ELSE {<<>>}) :
+             /\ \E pre \in (CASE Mode = "breadth" -> Prefixes [] Mode = "names" -> NamePrefixes [] OTHER -> {<<>>}) :
                   LET s == Run(Start, pre) IN
                   /\ hist = s.hist /\ cur = s.cur /\ gst = s.gst /\ out = s.out /\ fin = s.fin /\ law = s.law
 
@@ -490,13 +519,13 @@ NextOp ==
         /\ Mode # "given"
         /\ UNCHANGED idx
         /\ ~fin
-        /\ (Mode = "breadth" \/ Len(hist) < MaxOps)
+        /\ (Mode \in {"breadth", "names"} \/ Len(hist) < MaxOps)
         /\ \E op \in Alphabet(Len(hist) + 1) :
              LET rI == Step("I", cur["I"], op) IN
              /\ EnabledR(cur, op, rI)
              /\ LET s == Apply2(hist, cur, gst, out, op, rI) IN
                 /\ hist' = s.hist /\ cur' = s.cur /\ gst' = s.gst /\ out' = s.out /\ law' = s.law
-                /\ fin' = (s.fin \/ Mode = "breadth")
+                /\ fin' = (s.fin \/ Mode \in {"breadth", "names"})
 
 Next == NextGiven \/ NextOp
 \* every variable is a function of (hist, idx)
@@ -511,7 +540,7 @@ Compact(tr) ==
     [] tr.t = "obj" -> [o |-> [k \in DOMAIN tr.m |-> Compact(tr.m[k])]]
     [] OTHER -> "~" \o tr.t
 CompactExp(e) == IF e.st # "ok" THEN e ELSE [st |-> "ok", res |-> Compact(e.res), vars |-> [n \in ObsNames |-> Compact(e.vars[n])]]
-CompactStep(s) == [exp |-> CompactExp(s.exp), skip |-> s.skip, taint |-> s.taint, pre |-> s.pre,
+CompactStep(s) == [exp |-> CompactExp(s.exp), skip |-> s.skip, taint |-> s.taint, pre |-> s.pre, mni |-> s.mni,
                    dev |-> [d \in DOMAIN s.dev |-> CompactExp(s.dev[d])]]
 Vec == hist # <<>> => Emit([ops |-> hist, chk |-> law.chk, steps |-> [i \in 1..Len(out) |-> CompactStep(out[i])]])
 =============================================================================
